@@ -347,6 +347,7 @@ void Runner::op_start(Thread *t, int idx, const Op &op, OpRes &res) {
   if (!natural.empty() && child->image && !child->image->forked_only && !s.fork) {
     viol("C04", "unexecutable-input-succeeded", "", "start reported success for an input that cannot be executed as requested", idx);
   }
+  for (auto &oh : hs) if (&oh != h && oh.st != LS_NONE && oh.pid == child->pid) probe(P_pid_reused_live_handle);
   h->st = LS_RUNNING;
   h->spec = op.spec;
   h->uid = child->uid;
